@@ -106,7 +106,8 @@ func c18Body(c *mc.Ctx) {
 				try(&chunkReader{data: s.data, uniform: u, eofWithData: eof}, fmt.Sprintf("in %d-byte chunks (eofWithData=%v)", u, eof))
 			}
 		case 2:
-			if !c.Thorough() || n > 64 {
+			// three cut points: streams up to 64 bytes (thorough: up to 160 bytes)
+			if n > 160 || (!c.Thorough() && n > 64) {
 				continue
 			}
 			for a := 1; a < n; a++ {
@@ -133,7 +134,7 @@ func init() {
 		ID:    "C18",
 		Level: "exploration",
 		Rule: "for every valid stream of the seed corpus (3 commits, 4 tables, 6 blocks, 3 block indices, 2 profiles, string-list / uint-list sequences, pkt-lines, packfiles of 1..3 objects incl. a compressed block) and its reader entry point: " +
-			"every partition of the stream into successive reads with 0, 1 and 2 cut points (3 cut points for streams <= 64 bytes in thorough), uniform chunk sizes 1..8, each with the final bytes delivered together with EOF or EOF on a separate call; " +
+			"every partition of the stream into successive reads with 0, 1 and 2 cut points (3 cut points for streams <= 64 bytes, thorough <= 160 bytes), uniform chunk sizes 1..8, each with the final bytes delivered together with EOF or EOF on a separate call; " +
 			"the decoded objects, byte counts and end-of-stream condition must equal those of a single whole-buffer read. evaluations = (stream, mode) cases; the counter 'deliveries' is the number of chunked decodes; non-trivial = at least one delivery pattern tried; distinct by stream and mode",
 		Assumptions: []string{"zero-byte non-EOF reads are not generated (io.Reader discourages them)", "streams are the listed seed encodings, not all valid encodings"},
 		Harnesses: []*mc.Harness{
